@@ -3,12 +3,12 @@
    Coll/PGHT.v and followed by Print Assumptions.  Model: Coll/ModelGHT.v.
    [wf h d t]: t is a trie of height h keyed from column d on, as produced by insert/merge
    (distinct child keys, no empty child, rows below child k have k in column d, leaves are sets).
-   NOT covered: COLT force (colt.rs) and the leaf's `forced` flag. *)
+   NOT covered: COLT force_drain / the forest-level ColtGet (colt.rs) and the leaf's `forced` flag. *)
 From HV Require Import Coll.ModelGHT Coll.PGHT.
 From Coq Require Import Permutation.
 
 (* Every answer of every history of insert / merge / contains / recursive_iter / prefix_iter /
-   find_containing_leaf / partial_cmp / == / height / is_bot / deep join / cartesian product on
+   find_containing_leaf / partial_cmp / == / height / is_bot / deep join / cartesian product / force on
    two tries of any height equals the answer of the plain set of rows (row lists up to
    permutation), without exception. *)
 Theorem C08_history :
@@ -105,6 +105,15 @@ Theorem C08_cart :
               exists x y, In x (riter h a) /\ In y (riter h b) /\ z = x ++ y.
 Proof. exact cart_product_spec. Qed.
 Print Assumptions C08_cart.
+
+(* COLT force: a leaf becomes a trie of height 1 with exactly the same rows; inner nodes: None *)
+Theorem C08_force :
+  forall h d t, wf h d t ->
+    (h = 0 /\ exists t', force h d t = Some t' /\ wf 1 d t' /\
+               forall x, In x (riter 1 t') <-> In x (riter h t)) \/
+    (exists k, h = S k /\ force h d t = None).
+Proof. exact force_spec. Qed.
+Print Assumptions C08_force.
 
 (* the executable form evaluated on the implementation's answers *)
 Theorem C08_holds_b_sound :
